@@ -21,69 +21,71 @@ structure Site where
   locked : Bool
   required : List String
   role : String
+  requiredThen : List String   -- synchronising operations that must follow the access (publication)
 
 def sites : List Site := [
   -- ants: Protocol B
-  ⟨"ants.taskCallback.err", "ants.taskCallback.Err", "r", false, ["my.wg.Wait"], "A:read(wg.Wait)"⟩,
-  ⟨"ants.taskCallback.err", "ants.taskCallback.Get2", "r", false, ["my.wg.Wait"], "A:read(wg.Wait)"⟩,
-  ⟨"ants.taskCallback.result", "ants.taskCallback.Get2", "r", false, ["my.wg.Wait"], "A:read(wg.Wait)"⟩,
-  ⟨"ants.taskCallback.err", "ants.taskCallback.run", "r", false, [], "B:own"⟩,
-  ⟨"ants.taskCallback.err", "ants.taskCallback.runTaskOnce", "w", false, ["atomic.CompareAndSwapInt32"], "B:winner-write"⟩,
-  ⟨"ants.taskCallback.result", "ants.taskCallback.runTaskOnce", "w", false, ["atomic.CompareAndSwapInt32"], "B:winner-write"⟩,
+  ⟨"ants.taskCallback.err", "ants.taskCallback.Err", "r", false, ["my.wg.Wait"], "A:read(wg.Wait)", []⟩,
+  ⟨"ants.taskCallback.err", "ants.taskCallback.Get2", "r", false, ["my.wg.Wait"], "A:read(wg.Wait)", []⟩,
+  ⟨"ants.taskCallback.result", "ants.taskCallback.Get2", "r", false, ["my.wg.Wait"], "A:read(wg.Wait)", []⟩,
+  ⟨"ants.taskCallback.err", "ants.taskCallback.run", "r", false, [], "B:own", []⟩,
+  ⟨"ants.taskCallback.err", "ants.taskCallback.runTaskOnce", "w", false, ["atomic.CompareAndSwapInt32"], "B:winner-write", []⟩,
+  ⟨"ants.taskCallback.result", "ants.taskCallback.runTaskOnce", "w", false, ["atomic.CompareAndSwapInt32"], "B:winner-write", []⟩,
   -- cachex Future: Protocol A (creator = worker / Set caller; publication = updateTime store, wg.Done)
-  ⟨"cachex.Future.err", "cachex.Future.Get2", "r", false, ["my.wg.Wait"], "A:read(wg.Wait)"⟩,
-  ⟨"cachex.Future.value", "cachex.Future.Get1", "r", false, ["my.wg.Wait"], "A:read(wg.Wait)"⟩,
-  ⟨"cachex.Future.value", "cachex.Future.Get2", "r", false, ["my.wg.Wait"], "A:read(wg.Wait)"⟩,
-  ⟨"cachex.Future.err", "cachex.Future.setValue", "w", false, [], "A:write"⟩,
-  ⟨"cachex.Future.value", "cachex.Future.setValue", "w", false, [], "A:write"⟩,
+  ⟨"cachex.Future.err", "cachex.Future.Get2", "r", false, ["my.wg.Wait"], "A:read(wg.Wait)", []⟩,
+  ⟨"cachex.Future.value", "cachex.Future.Get1", "r", false, ["my.wg.Wait"], "A:read(wg.Wait)", []⟩,
+  ⟨"cachex.Future.value", "cachex.Future.Get2", "r", false, ["my.wg.Wait"], "A:read(wg.Wait)", []⟩,
+  ⟨"cachex.Future.err", "cachex.Future.setValue", "w", false, [], "A:write", ["atomic.StorePointer", "my.wg.Done"]⟩,
+  ⟨"cachex.Future.value", "cachex.Future.setValue", "w", false, [], "A:write", ["atomic.StorePointer", "my.wg.Done"]⟩,
   ⟨"cachex.Future.err", "cachex.cacheImpl.getFutureStatus", "r", false, ["future.getUpdateTime", "updateTime.IsZero"],
-     "A:read(updateTime load observed non-zero)"⟩,
+     "A:read(updateTime load observed non-zero)", []⟩,
   -- loom.WaitClose: closeChan Protocol A + C, state Protocol C / atomic
-  ⟨"loom.WaitClose.closeChan", "loom.WaitClose.C", "r", false, ["atomic.LoadInt32", "wc.checkInitSlow"], "A:read(state load / mutex)"⟩,
-  ⟨"loom.WaitClose.closeChan", "loom.WaitClose.WaitUtil", "r", false, ["atomic.LoadInt32", "wc.checkInitSlow"], "A:read(state load / mutex)"⟩,
-  ⟨"loom.WaitClose.closeChan", "loom.WaitClose.Close", "r", true, ["wc.mutex.Lock"], "C"⟩,
-  ⟨"loom.WaitClose.closeChan", "loom.WaitClose.Close", "w", true, ["wc.mutex.Lock"], "A:write+C"⟩,
-  ⟨"loom.WaitClose.closeChan", "loom.WaitClose.checkInitSlow", "w", true, ["wc.mutex.Lock"], "A:write+C"⟩,
-  ⟨"loom.WaitClose.closeChan", "loom.WaitClose.assetCloseChanNotNil", "r", false, [], "unused"⟩,
-  ⟨"loom.WaitClose.state", "loom.WaitClose.C", "a", false, [], "atomic"⟩,
-  ⟨"loom.WaitClose.state", "loom.WaitClose.Close", "a", false, [], "atomic"⟩,
-  ⟨"loom.WaitClose.state", "loom.WaitClose.Close", "a", true, [], "atomic"⟩,
-  ⟨"loom.WaitClose.state", "loom.WaitClose.Close", "r", true, ["wc.mutex.Lock"], "C"⟩,
-  ⟨"loom.WaitClose.state", "loom.WaitClose.IsClosed", "a", false, [], "atomic"⟩,
-  ⟨"loom.WaitClose.state", "loom.WaitClose.WaitUtil", "a", false, [], "atomic"⟩,
-  ⟨"loom.WaitClose.state", "loom.WaitClose.checkInitSlow", "r", true, ["wc.mutex.Lock"], "C"⟩,
-  ⟨"loom.WaitClose.state", "loom.WaitClose.checkInitSlow", "a", true, ["wc.mutex.Lock"], "atomic"⟩,
-  ⟨"loom.WaitClose.state", "loom.WaitClose.assetCloseChanNotNil", "a", false, [], "unused"⟩,
-  ⟨"loom.WaitClose.state", "loom.WaitClose.assetCloseChanNotNil", "r", false, [], "unused"⟩,
+  ⟨"loom.WaitClose.closeChan", "loom.WaitClose.C", "r", false, ["atomic.LoadInt32", "wc.checkInitSlow"], "A:read(state load / mutex)", []⟩,
+  ⟨"loom.WaitClose.closeChan", "loom.WaitClose.WaitUtil", "r", false, ["atomic.LoadInt32", "wc.checkInitSlow"], "A:read(state load / mutex)", []⟩,
+  ⟨"loom.WaitClose.closeChan", "loom.WaitClose.Close", "r", true, ["wc.mutex.Lock"], "C", []⟩,
+  ⟨"loom.WaitClose.closeChan", "loom.WaitClose.Close", "w", true, ["wc.mutex.Lock"], "A:write+C", ["atomic.StoreInt32"]⟩,
+  ⟨"loom.WaitClose.closeChan", "loom.WaitClose.checkInitSlow", "w", true, ["wc.mutex.Lock"], "A:write+C", ["atomic.StoreInt32", "wc.mutex.Unlock"]⟩,
+  ⟨"loom.WaitClose.closeChan", "loom.WaitClose.assetCloseChanNotNil", "r", false, [], "unused", []⟩,
+  ⟨"loom.WaitClose.state", "loom.WaitClose.C", "a", false, [], "atomic", []⟩,
+  ⟨"loom.WaitClose.state", "loom.WaitClose.Close", "a", false, [], "atomic", []⟩,
+  ⟨"loom.WaitClose.state", "loom.WaitClose.Close", "a", true, [], "atomic", []⟩,
+  ⟨"loom.WaitClose.state", "loom.WaitClose.Close", "r", true, ["wc.mutex.Lock"], "C", []⟩,
+  ⟨"loom.WaitClose.state", "loom.WaitClose.IsClosed", "a", false, [], "atomic", []⟩,
+  ⟨"loom.WaitClose.state", "loom.WaitClose.WaitUtil", "a", false, [], "atomic", []⟩,
+  ⟨"loom.WaitClose.state", "loom.WaitClose.checkInitSlow", "r", true, ["wc.mutex.Lock"], "C", []⟩,
+  ⟨"loom.WaitClose.state", "loom.WaitClose.checkInitSlow", "a", true, ["wc.mutex.Lock"], "atomic", []⟩,
+  ⟨"loom.WaitClose.state", "loom.WaitClose.assetCloseChanNotNil", "a", false, [], "unused", []⟩,
+  ⟨"loom.WaitClose.state", "loom.WaitClose.assetCloseChanNotNil", "r", false, [], "unused", []⟩,
   -- loom.Queue / Wheel: Protocol A through the atomic pointer that publishes the node / wheelData
-  ⟨"loom.node.value", "loom.Queue.Pop", "r", false, ["queueLoad"], "A:read(atomic load of the pointer to the node)"⟩,
-  ⟨"loom.wheelData.c", "loom.Wheel.AfterFunc", "r", false, ["wheel.fetchWheelData"], "A:read(atomic load of the slot)"⟩,
-  ⟨"loom.wheelData.c", "loom.WheelTimer.Reset", "r", false, ["my.wheel.fetchWheelData"], "A:read(atomic load of the slot)"⟩,
-  ⟨"loom.wheelData.c", "loom.Wheel.onTicker", "r", false, ["atomic.SwapPointer"], "A:read(swap of the slot)"⟩,
+  ⟨"loom.node.value", "loom.Queue.Pop", "r", false, ["queueLoad"], "A:read(atomic load of the pointer to the node)", []⟩,
+  ⟨"loom.wheelData.c", "loom.Wheel.AfterFunc", "r", false, ["wheel.fetchWheelData"], "A:read(atomic load of the slot)", []⟩,
+  ⟨"loom.wheelData.c", "loom.WheelTimer.Reset", "r", false, ["my.wheel.fetchWheelData"], "A:read(atomic load of the slot)", []⟩,
+  ⟨"loom.wheelData.c", "loom.Wheel.onTicker", "r", false, ["atomic.SwapPointer"], "A:read(swap of the slot)", []⟩,
   -- single-owner fields (documented contract: used from the owning goroutine only)
-  ⟨"loom.WheelTimer.C", "loom.WheelTimer.Reset", "w", false, [], "owner"⟩,
-  ⟨"loom.LaterTimer.stoppedTime", "loom.LaterTimer.IsStopped", "r", false, [], "owner"⟩,
-  ⟨"loom.LaterTimer.stoppedTime", "loom.LaterTimer.Reset", "w", false, [], "owner"⟩,
-  ⟨"loom.LaterTimer.stoppedTime", "loom.LaterTimer.Stop", "w", false, [], "owner"⟩,
+  ⟨"loom.WheelTimer.C", "loom.WheelTimer.Reset", "w", false, [], "owner", []⟩,
+  ⟨"loom.LaterTimer.stoppedTime", "loom.LaterTimer.IsStopped", "r", false, [], "owner", []⟩,
+  ⟨"loom.LaterTimer.stoppedTime", "loom.LaterTimer.Reset", "w", false, [], "owner", []⟩,
+  ⟨"loom.LaterTimer.stoppedTime", "loom.LaterTimer.Stop", "w", false, [], "owner", []⟩,
   -- taskx: Protocol A with the single consumer as creator (Do executed once per task)
-  ⟨"taskx.taskCallback.err", "taskx.taskCallback.Do", "w", false, [], "A:write"⟩,
-  ⟨"taskx.taskCallback.result", "taskx.taskCallback.Do", "w", false, [], "A:write"⟩,
-  ⟨"taskx.taskCallback.err", "taskx.taskCallback.Do", "r", false, [], "A:creator-read"⟩,
-  ⟨"taskx.taskCallback.isHandled", "taskx.taskCallback.Do", "r", false, [], "owner"⟩,
-  ⟨"taskx.taskCallback.isHandled", "taskx.taskCallback.Do", "w", false, [], "owner"⟩,
-  ⟨"taskx.taskCallback.err", "taskx.taskCallback.Get2", "r", false, ["task.wg.Wait"], "A:read(wg.Wait)"⟩,
-  ⟨"taskx.taskCallback.result", "taskx.taskCallback.Get1", "r", false, ["task.wg.Wait"], "A:read(wg.Wait)"⟩,
-  ⟨"taskx.taskCallback.result", "taskx.taskCallback.Get2", "r", false, ["task.wg.Wait"], "A:read(wg.Wait)"⟩
+  ⟨"taskx.taskCallback.err", "taskx.taskCallback.Do", "w", false, [], "A:write", ["task.wg.Done"]⟩,
+  ⟨"taskx.taskCallback.result", "taskx.taskCallback.Do", "w", false, [], "A:write", ["task.wg.Done"]⟩,
+  ⟨"taskx.taskCallback.err", "taskx.taskCallback.Do", "r", false, [], "A:creator-read", []⟩,
+  ⟨"taskx.taskCallback.isHandled", "taskx.taskCallback.Do", "r", false, [], "owner", []⟩,
+  ⟨"taskx.taskCallback.isHandled", "taskx.taskCallback.Do", "w", false, [], "owner", []⟩,
+  ⟨"taskx.taskCallback.err", "taskx.taskCallback.Get2", "r", false, ["task.wg.Wait"], "A:read(wg.Wait)", []⟩,
+  ⟨"taskx.taskCallback.result", "taskx.taskCallback.Get1", "r", false, ["task.wg.Wait"], "A:read(wg.Wait)", []⟩,
+  ⟨"taskx.taskCallback.result", "taskx.taskCallback.Get2", "r", false, ["task.wg.Wait"], "A:read(wg.Wait)", []⟩
 ]
 
 /-- match one extracted access against the table -/
-def matchSite (field func kind : String) (locked : Bool) (after : List String) : String :=
+def matchSite (field func kind : String) (locked : Bool) (after : List String) (thn : List String := []) : String :=
   let cands := sites.filter (fun s => s.field == field && s.func == func && s.kind == kind && s.locked == locked)
   match cands with
   | [] => "reject unlisted-access-site"
   | c :: _ =>
-    match cands.find? (fun s => s.required.all (fun r => after.contains r)) with
+    match cands.find? (fun s => s.required.all (fun r => after.contains r) && s.requiredThen.all (fun r => thn.contains r)) with
     | some s => "ok " ++ s.role
-    | none => "reject missing-synchronisation " ++ ",".intercalate (c.required.filter (fun r => !after.contains r))
+    | none => "reject missing-synchronisation " ++
+        ",".intercalate (c.required.filter (fun r => !after.contains r) ++ (c.requiredThen.filter (fun r => !thn.contains r)).map (fun r => "then:" ++ r))
 
 end Got.Model.Discipline
